@@ -144,12 +144,14 @@ func getGlobalBufferManagerWithMemFd(bufferPathName string, memFd int, capacity 
 		}
 
 		if err := syscall.Ftruncate(memFd, int64(capacity)); err != nil {
+			_ = syscall.Close(memFd)
 			return nil, fmt.Errorf("getGlobalBufferManagerWithMemFd truncate share memory failed:%w", err)
 		}
 	} else {
 		var fInfo syscall.Stat_t
 		err = syscall.Fstat(memFd, &fInfo)
 		if err != nil {
+			_ = syscall.Close(memFd)
 			return nil, fmt.Errorf("getGlobalBufferManagerWithMemFd mapping failed:%w", err)
 		}
 		capacity = uint32(fInfo.Size)
@@ -157,6 +159,9 @@ func getGlobalBufferManagerWithMemFd(bufferPathName string, memFd int, capacity 
 
 	mem, err := syscall.Mmap(memFd, 0, int(capacity), syscall.PROT_READ|syscall.PROT_WRITE, syscall.MAP_SHARED)
 	if err != nil {
+		// the descriptor (created here, or received from the peer and owned by this call) would
+		// otherwise stay open for the life of the process
+		_ = syscall.Close(memFd)
 		return nil, fmt.Errorf("getGlobalBufferManagerWithMemFd Mmap failed:%w", err)
 	}
 
@@ -169,6 +174,7 @@ func getGlobalBufferManagerWithMemFd(bufferPathName string, memFd int, capacity 
 
 	if err != nil {
 		_ = syscall.Munmap(mem)
+		_ = syscall.Close(memFd)
 		return nil, err
 	}
 
